@@ -173,7 +173,7 @@ def check(ctx) -> None:
             rb_done = True
             g = st.callee
             _, n, v = key_site["rb_applied"]
-            tgt = v.args[0].id if isinstance(v, ast.Call) and isinstance(v.func, ast.Name) and v.func.id == "len" and v.args and isinstance(v.args[0], ast.Name) else None
+            tgt = _len_of(g, v)
             imp_arg = None
             for c in [x for x in own_nodes(g.node) if isinstance(x, ast.Call)]:
                 if isinstance(c.func, ast.Attribute) and c.func.attr == "parallel_impute" and c.args and isinstance(c.args[0], ast.Name):
@@ -184,7 +184,7 @@ def check(ctx) -> None:
                 ctx.finding("C18-Z3", "stats:rb_applied:source", g.loc(n), "rb_applied is not the length of the list handed to the rule imputer")
             _, n2, v2 = key_site.get("rb_solved", (None, None, None))
             if n2 is not None:
-                tgt2 = v2.args[0].id if isinstance(v2, ast.Call) and isinstance(v2.func, ast.Name) and v2.func.id == "len" and v2.args and isinstance(v2.args[0], ast.Name) else None
+                tgt2 = _len_of(g, v2)
                 wb_iter = None
                 for s in st.stores:
                     if s.func is g and pl.reaction_col.text in s.keytexts and s.kind == "assign":
@@ -228,6 +228,17 @@ def check(ctx) -> None:
     ctx.instance("C18-Z4", "merge_stats combines by key-wise +=", ms.loc(), ok=ok)
     if not ok:
         ctx.finding("C18-Z4", "balancing.merge_stats:combine", ms.loc(), "merge_stats no longer adds the statistics key-wise")
+
+
+def _len_of(g: Func, v: ast.AST, depth: int = 0) -> Optional[str]:
+    """name X if v is len(X), possibly through a single-assignment local"""
+    if isinstance(v, ast.Call) and isinstance(v.func, ast.Name) and v.func.id == "len" and v.args and isinstance(v.args[0], ast.Name):
+        return v.args[0].id
+    if isinstance(v, ast.Name) and depth < 3:
+        a = assignments_to(g, v.id)
+        if len(a) == 1 and a[0][2] is None:
+            return _len_of(g, a[0][1], depth + 1)
+    return None
 
 
 def _feeds(g: Func, counter: str, key: str) -> bool:
